@@ -557,10 +557,20 @@ def generate_from_text(unit, text, mode=None, canary=None):
     """Template text produced by a data-driven unit (with the extracted statements already filled in)."""
     d = os.path.join(VERIF, 'build')
     os.makedirs(d, exist_ok=True)
-    tpl = os.path.join(d, '_tpl_%s%s.rs' % (unit, ('_' + mode) if mode else ''))
+    # main run, vacuity twin and canaries are generated by parallel threads: each gets a template file of its own
+    # (a shared file was truncated by one thread while another parsed it: empty output, a spurious 'undecided')
+    import threading
+    import uuid
+    tpl = os.path.join(d, '_tpl_%s_%d_%d_%s.rs' % (unit, os.getpid(), threading.get_ident(), uuid.uuid4().hex[:8]))
     with open(tpl, 'w') as f:
         f.write(text)
-    return generate_tpl(tpl, unit, mode, None, False, (), ())
+    try:
+        return generate_tpl(tpl, unit, mode, None, False, (), ())
+    finally:
+        try:
+            os.remove(tpl)
+        except OSError:
+            pass
 
 
 def generate_tpl(tpl, unit, mode=None, canary=None, lenient=False, drop_hints_for=(), extra_fns=()):
